@@ -846,9 +846,19 @@ func (s *shardController) SwapNode(from model.Server, to model.Server) error {
 
 func (s *shardController) swapNode(from model.Server, to model.Server, res chan error) {
 	s.shardMetadataMutex.Lock()
-	s.shardMetadata.RemovedNodes = append(s.shardMetadata.RemovedNodes, from)
-	s.shardMetadata.Ensemble = replaceInList(s.shardMetadata.Ensemble, from, to)
+	err := swapNodeInMetadata(&s.shardMetadata, from, to)
 	s.shardMetadataMutex.Unlock()
+	if err != nil {
+		s.log.Warn(
+			"Rejected node swap",
+			slog.Any("error", err),
+			slog.Any("ensemble", s.shardMetadata.Ensemble),
+			slog.Any("from", from),
+			slog.Any("to", to),
+		)
+		res <- err
+		return
+	}
 
 	s.log.Info(
 		"Swapping node",
@@ -976,6 +986,21 @@ func mergeLists[T any](lists ...[]T) []T {
 		res = append(res, list...)
 	}
 	return res
+}
+
+// swapNodeInMetadata replaces one ensemble member. The swap is refused (metadata untouched) unless it
+// replaces exactly one member: `to` must not already be a member (two swaps of one shard computed from the
+// same status snapshot can name the same target) and `from` must be a member (stale or repeated action).
+func swapNodeInMetadata(md *model.ShardMetadata, from, to model.Server) error {
+	if listContains(md.Ensemble, to) {
+		return errors.Errorf("swap-node: target %s is already in the ensemble", to.GetIdentifier())
+	}
+	if !listContains(md.Ensemble, from) {
+		return errors.Errorf("swap-node: source %s is not in the ensemble", from.GetIdentifier())
+	}
+	md.RemovedNodes = append(md.RemovedNodes, from)
+	md.Ensemble = replaceInList(md.Ensemble, from, to)
+	return nil
 }
 
 func replaceInList(list []model.Server, oldServer, newServer model.Server) []model.Server {
